@@ -419,9 +419,16 @@ def models_agree(ctx, models, at, nd, a0):
     for s in ('center_extrema', 'burst_method', 'burst_kwargs', 'thresholds', 'find_extrema_kwargs', 'return_samples'):
         if ma.get(s) != a0.get(s):
             problems.append(f'setting {s}: {T.brief(ma.get(s), 60)}')
+    # one model object per position: the object stored at [i] / [i][j] is constructed inside the loop nest that stores it (an object constructed further out is
+    # one object referenced from several positions; after the loop all of them show what was loaded last)
+    made = [e for e in ctx.trace if e['kind'] == 'construct' and e.get('obj') == v]
+    depth = 1 if nd == 2 else 2
+    if made and len(made[-1]['loops']) < depth:
+        problems.append(f'the model is constructed outside the loop over {"signals" if len(made[-1]["loops"]) == 0 else "the second dimension"} ({made[-1]["where"]}): '
+                        'every position of that loop holds the same object')
     if problems:
         return False, '; '.join(problems)
-    return True, 'same-position table, signal and settings'
+    return True, 'same-position table, signal and settings; one model object per position'
 
 
 def effself(rep, model, summ, det):
